@@ -363,12 +363,15 @@ def observe(gw):
     return out
 
 
-def build(case):
+def build(case, file_as_path=False):
     cls = gw_class(case["cls"])
     pos = [untok(t) for t in case["pos"]]
     kws = {}
     for k, t in case["kws"]:
         kws[k] = untok(t)
+    if file_as_path and isinstance(kws.get("persistence_file"), str):
+        import pathlib
+        kws["persistence_file"] = pathlib.Path(kws["persistence_file"])      # documented as "a path": os.PathLike too
     return cls(*pos, **kws)
 
 
@@ -611,6 +614,12 @@ def effect_probe(case):
                 gw2.tasks.persistence.safe_load_sensors()
                 obs["restored"] = 1 in gw2.sensors
                 obs["file"] = os.path.isfile(pf)
+                if "persistence_file" in given:
+                    # the same option given as a pathlib.Path: the gateway can be built, loads the file, saves it
+                    gw3 = build(case, file_as_path=True)
+                    gw3.tasks.persistence.safe_load_sensors()
+                    obs["restored_path_object"] = 1 in gw3.sensors
+                    gw3.tasks.persistence.save_sensors()
         want = bool(given.get("persistence", False))
         if isinstance(cb, Stub) and obs["called"] != 1:
             return ("option-no-effect/event_callback",
@@ -622,6 +631,9 @@ def effect_probe(case):
                     f"persistence={given['persistence']!r}"
                     + ("" if "event_callback" in given else " without event_callback")
                     + f": a node presented after the first save is not restored by a second gateway (files {files})"), obs
+        if want and obs.get("restored_path_object") is False:
+            return ("option-no-effect/persistence_file-as-path-object",
+                    f"persistence_file given as pathlib.Path({pf!r}): the node saved under that name is not restored"), obs
         if want and not obs["file"]:
             return ("option-no-effect/persistence_file", f"persistence file {pf!r} was not written (files {files})"), obs
         if not want and files:
